@@ -9,6 +9,7 @@ mod trie_record;
 mod trie_replay;
 mod trie_sut;
 mod util;
+mod wasm_run;
 
 fn main() {
     let args: Vec<String> = std::env::args().collect();
@@ -21,6 +22,7 @@ fn main() {
         "trie-replay" => trie_replay::main(rest),
         "trie-record" => trie_record::main(rest),
         "inst-replay" => inst_replay::main(rest),
+        "wasm-run" => wasm_run::main(rest),
         "trie-canon" => trie_canon::main(rest),
         other => {
             eprintln!("unknown subcommand {}", other);
